@@ -697,7 +697,8 @@ func reachesThroughCalls(v ssa.Value, pred func(ssa.Value) bool, depth int) bool
 // unescaping) a header, path or parameter on its way into a notice shows
 // "a b" where the client sent "a%20b".
 func checkC10Undecoded(p *Prog, r *Report, ru *Rule, known map[*ssa.Function]printfInfo) {
-	decoders := map[string]bool{"net/url.QueryUnescape": true, "net/url.PathUnescape": true, "html.UnescapeString": true, "strconv.Unquote": true}
+	decoders := map[string]bool{"net/url.QueryUnescape": true, "net/url.PathUnescape": true, "html.UnescapeString": true, "strconv.Unquote": true,
+		"net/url.Parse": true, "net/url.ParseRequestURI": true /* their Host, Path and Fragment are percent-decoded */}
 	n := 0
 	for _, fn := range p.Funcs() {
 		if nil == fn.Pkg || !strings.HasSuffix(fn.Pkg.Pkg.Path(), "/"+hsrvPkg) {
@@ -728,6 +729,17 @@ func checkC10Undecoded(p *Prog, r *Report, ru *Rule, known map[*ssa.Function]pri
 				ru.Bad(fnName(fn)+"→"+cname+":undecoded", posOf(i), "an argument of this notice went through %s (%s): the operator is shown a decoded form, not what the client sent character for character", calleeName(dec.(*ssa.Call).Common()), p.Pos(posOf(dec.(ssa.Instruction))))
 			}
 			_ = construct
+		})
+	}
+	/* Nor is the request rewritten before the handlers see it. */
+	for _, fn := range p.Funcs() {
+		if nil == fn.Pkg || !strings.HasSuffix(fn.Pkg.Pkg.Path(), "/"+hsrvPkg) {
+			continue
+		}
+		eachInstr(fn, func(i ssa.Instruction) {
+			if c := callCommon(i); nil != c && "net/http.AllowQuerySemicolons" == calleeName(c) {
+				ru.Bad(fnName(fn)+":AllowQuerySemicolons", posOf(i), "handlers run behind http.AllowQuerySemicolons, which rewrites every ';' of the query to '&' before they (and their notices) see the request")
+			}
 		})
 	}
 	if n < 5 {
